@@ -2,6 +2,7 @@ import GB.C08.Proofs
 import GB.C08.MimeProofs
 import GB.C08.HandoffProofs
 import GB.C08.ConnProofs
+import GB.C08.StallProofs
 import GB.Generated.Facts
 /-
   C08 — gRPC-Web framing is lossless and always ends with exactly one status trailer.
@@ -399,6 +400,55 @@ theorem C08_ws_original_hard_close_loses_trailer :
       (fun s => (s.got, s.lost, s.tcpClosed)) =
         some ([Item.frame [0, 0, 0, 0, 1, 7], Item.frame [128, 0, 0, 0, 0], Item.close], false, true) := by
   refine ⟨?_, ?_⟩ <;> decide
+
+/-! ### a client that stops reading cannot hold the gRPC-WebSocket handler (fix D35) -/
+
+/-- fact: in sendTrailer the first statement is the SetDeadline call — it precedes the first `sendMu.Lock()` — and the
+    rest of the closing sequence is the one the model walks through -/
+theorem C08_facts_deadline_before_mutex :
+    GB.Generated.wsSendTrailerCalls = ["SetDeadline", "Lock", "Unlock", "SetDeadline", "WriteMessage", "closeGracefully"] := by
+  decide
+
+open GB.C08.Stall in
+/-- Fixed order (deadline first, then the mutex): from EVERY state the handler can be in once Forward has returned —
+    an abandoned send blocked in the connection or not, the client reading, not reading, answering or silent — and
+    whatever the client does afterwards (validity is preserved by all steps, the client's included), the handler's own
+    schedule (next handler step if enabled, otherwise the armed deadline expires) reaches `returned` without a single
+    step of the client and with at most three expirations: total bound 3 x wsCloseTimeout (abandoned write, trailer
+    write, close handshake — each under its own deadline). -/
+theorem C08_ws_handler_bounded_on_stalled_client (s : St) (ho : s.order = Order.fixed) (hv : valid s = true) :
+    (∀ l s', step s l = some s' → valid s' = true ∧ s'.order = Order.fixed) ∧
+    (∃ s', GB.LTS.run step s (escape 12 s) = some s' ∧ s'.phase = Phase.returned) ∧
+    (escape 12 s).count Lbl.timeout ≤ 3 ∧
+    (∀ l ∈ escape 12 s, l ∈ handlerLbls ∨ l = Lbl.timeout) := by
+  have g := good_of_valid s
+  simp only [ho, hv, decide_true, Bool.and_self, Bool.not_true, Bool.false_or] at g
+  simp only [goodState, Bool.and_eq_true, List.all_eq_true, decide_eq_true_eq, Bool.or_eq_true, beq_iff_eq] at g
+  obtain ⟨⟨⟨g1, g2⟩, g3⟩, g4⟩ := g
+  refine ⟨fun l s' hs => ?_, ?_, g3, fun l hl => ?_⟩
+  · have := g1 l (mem_allLbls l)
+    rw [hs] at this
+    simp only [Bool.and_eq_true, decide_eq_true_eq] at this
+    exact ⟨this.1, by rw [this.2, ho]⟩
+  · cases hr : GB.LTS.run step s (escape 12 s) with
+    | none => rw [hr] at g2; simp at g2
+    | some s' => rw [hr] at g2; exact ⟨s', rfl, by simpa using g2⟩
+  · rcases g4 l hl with h | h
+    · exact Or.inl (by simpa using h)
+    · exact Or.inr h
+
+open GB.C08.Stall in
+/-- What fix D35 removed, kernel-evaluated: original order, an abandoned send blocked in a connection whose client has
+    stopped reading, Forward returned. The handler is on the mutex, no deadline is armed: NO step of the handler and no
+    expiration is enabled — only the client can change anything, and a silent client changes nothing; the same
+    situation in the fixed order is left by the handler alone after one expiration. -/
+theorem C08_ws_original_trailer_waits_for_stalled_send :
+    let D : St := ⟨Order.original, Helper.blocked, Phase.start, false, false, DL.unset⟩
+    valid D = true ∧ (∀ l ∈ handlerLbls ++ [Lbl.timeout], step D l = none) ∧ escape 12 D = [] ∧
+    step D Lbl.cliStop = some D ∧
+    escape 12 ⟨Order.fixed, Helper.blocked, Phase.start, false, false, DL.unset⟩ =
+      [Lbl.arm, Lbl.timeout, Lbl.lock, Lbl.timeout, Lbl.writeTrailer, Lbl.armClose, Lbl.timeout, Lbl.writeClose, Lbl.readLoopEnds] := by
+  decide
 
 /-! ### non-vacuity -/
 
